@@ -278,6 +278,8 @@ def utf8_table(prog, chk):
     seqs = [()]
     seqs += [(a,) for a in R]
     seqs += list(itertools.product(R, R))
+    if getattr(chk, "tier", "quick") == "thorough":
+        seqs += list(itertools.product(R, R, R))
     cont = [0x41, 0x7f, 0x80, 0xa0, 0xbf, 0xc0, 0xff, 0x00]
     for lead in (0xc3, 0xe0, 0xef, 0xf0, 0xf4):
         seqs += [(lead, a, b) for a in cont for b in cont]
